@@ -35,6 +35,16 @@ impl<'a, T: Copy> VxCopied<T> for Option<&'a T> {
     fn vx_copied(self) -> (r: Option<T>) ensures r is Some == self is Some, r is Some ==> r->Some_0 == *self->Some_0 { self.copied() }
 }
 
+// `set.iter().copied()` where R7 turned `iter()` into the Vec of the elements: the copy of that Vec, collected (method_rename copied -> vx_vec_copied)
+pub struct VxCopiedVec<T> { pub v: Vec<T> }
+pub trait VxVecCopied<T> { fn vx_vec_copied(self) -> VxCopiedVec<T>; }
+impl<T: Copy> VxVecCopied<T> for Vec<T> {
+    fn vx_vec_copied(self) -> (r: VxCopiedVec<T>) ensures r.v@ == self@ { VxCopiedVec { v: self } }
+}
+impl<T> VxCopiedVec<T> {
+    pub fn collect(self) -> (r: Vec<T>) ensures r@ == self.v@ { self.v }
+}
+
 // Option::expect(msg) where a panic with a message is a permitted outcome (C17): if the call returns, the option was Some
 pub trait VxExpect<T> { fn vx_expect(self, msg: &str) -> T; }
 impl<T> VxExpect<T> for Option<T> {
